@@ -69,6 +69,10 @@ def pipe_run(shard, producer_cmd, stdin_data=None, env=None, timeout=3000):
 
 def collect(res, shard, lines, prc, err, label):
     cur_trace = None
+    if "TIMEOUT" in lines:
+        # the driver was killed at the end of the time budget: its last line may be cut in the middle
+        k = lines.index("TIMEOUT")
+        lines = [l for i, l in enumerate(lines) if i != k - 1 or not l.strip()] if k > 0 else lines
     for line in lines:
         if line.startswith("BEGINTRACE "):
             cur_trace = (shard, int(line.split()[1])); res.traces[cur_trace] = []
@@ -80,7 +84,10 @@ def collect(res, shard, lines, prc, err, label):
             if len(res.samples) < 6:
                 res.samples.append(line[7:])
         else:
-            res.merge_line(shard, line, None)
+            try:
+                res.merge_line(shard, line, None)
+            except (ValueError, IndexError, AttributeError):
+                res.bad.append(f"{label}: unreadable driver line: {line[:200]}")
     if "TIMEOUT" in lines:
         return                      # the producer was killed with the driver: its exit status says nothing
     if prc not in (0, 3):           # 3 = watchdog (a `hang` line was emitted and is judged by the monitor)
